@@ -67,8 +67,8 @@ TVWrite  == Step("vwrite")  /\ Ev.x > 0 /\ M % Ev.x = 0 /\ ValidWord(UnflatWord(
                             /\ LET v == DenView(UnflatWord(Ev.w), M \div Ev.x, Ev.x)
                                IN Ev.i < v.vr /\ Ev.k < v.vc /\ Val1(CWrite(C, v.map[<<Ev.i, Ev.k>>], Ev.p[1]))
                             /\ UNCHANGED cit
-(* Real element types: the element gets a non-zero derivative, its value stays (written value + 10, see SparseVector.tla) *)
-TSetVar  == Step("setvar")  /\ Ev.i \in Idx(M) /\ C[Ev.i] < 5 /\ Val1([C EXCEPT ![Ev.i] = C[Ev.i] + 10]) /\ UNCHANGED cit
+(* Real element types: the element gets a non-zero derivative, its value stays (written value + Tag, see SparseVecContract.tla) *)
+TSetVar  == Step("setvar")  /\ Ev.i \in Idx(M) /\ ~Tagged(C[Ev.i]) /\ Val1([C EXCEPT ![Ev.i] = C[Ev.i] + Tag]) /\ UNCHANGED cit
 (* a whole-view operation with a slice view as receiver; w = word, k = columns, p = operand matrix, x = scalar *)
 TBulk    == /\ l <= Len(Trace) /\ Ev.e \in BulkOps /\ l' = l + 1
             /\ Ev.k > 0 /\ M % Ev.k = 0 /\ ValidWord(UnflatWord(Ev.w), M \div Ev.k, Ev.k) /\ ~HasT(UnflatWord(Ev.w))
